@@ -59,7 +59,7 @@ pub proof fn lemma_split_inside_separator(a: Seq<u8>, b: Seq<u8>)
 //@ implicit [C06,C17]
 //@ ensures#nothing_to_decode_leaves_the_buffer [C17]
       no_sep(old(buf).data@) ==> (r is Ok && r->Ok_0 is None && final(buf).data@ == old(buf).data@)
-//@ ensures#decodes_exactly_the_first_message [C17]
+//@ ensures#decodes_exactly_the_first_message [C17,C06]
       forall|p: int| first_sep(old(buf).data@, p) ==> (
           final(buf).data@ == old(buf).data@.skip(p + 2)
           && match utf8_spec(old(buf).data@.take(p)) {
@@ -91,7 +91,7 @@ pub proof fn lemma_split_inside_separator(a: Seq<u8>, b: Seq<u8>)
 //@ implicit [C06,C17]
 //@ ensures#nothing_to_decode_leaves_the_buffer [C17]
       no_sep(old(buf).data@) ==> (r is Ok && r->Ok_0 is None && final(buf).data@ == old(buf).data@)
-//@ ensures#decodes_exactly_the_first_message_as_one_json_value [C17]
+//@ ensures#decodes_exactly_the_first_message_as_one_json_value [C17,C06]
 //    each frame is consumed exactly once and yields the value its text parses to -- or an error,
 //    never a silent skip
       forall|p: int| first_sep(old(buf).data@, p) ==> (
@@ -115,7 +115,7 @@ pub proof fn lemma_split_inside_separator(a: Seq<u8>, b: Seq<u8>)
       r is Ok && final(buf).data@.len() >= old(buf).data@.len() + 2
       && final(buf).data@.take(old(buf).data@.len() as int) == old(buf).data@
       && final(buf).data@.skip(final(buf).data@.len() - 2) == seq![10u8, 10u8]
-//@ ensures#exactly_one_document_is_written [C17]
+//@ ensures#exactly_one_document_is_written [C17,C06]
 //    the frame is the rendering of ONE value followed by the separator (not two frames, not a part)
       exists|v: Value, s: String| s@ == #[trigger] crate::serde_json::json_text(v)
           && final(buf).data@ == old(buf).data@ + (#[trigger] as_ref_view::<String, str>(&s)).spec_bytes() + seq![10u8, 10u8]
@@ -126,7 +126,7 @@ pub proof fn lemma_split_inside_separator(a: Seq<u8>, b: Seq<u8>)
 //@ implicit [C06,C17]
 //@ ensures#nothing_to_decode_leaves_the_buffer [C17]
       no_sep(old(buf).data@) ==> (r is Ok && r->Ok_0 is None && final(buf).data@ == old(buf).data@)
-//@ ensures#decodes_exactly_the_first_message_as_one_jsonrpc_message [C17]
+//@ ensures#decodes_exactly_the_first_message_as_one_jsonrpc_message [C17,C06]
       forall|p: int| first_sep(old(buf).data@, p) ==> (
           final(buf).data@ == old(buf).data@.skip(p + 2)
           && match utf8_spec(old(buf).data@.take(p)) {
